@@ -198,6 +198,8 @@ def check_compile_loop(ctx: Ctx, ic):
         raise AnchorError(fi.short, "expected one qc.uncompute_all call")
     facts = [norm(e) for e, pol in guard_facts(fi, ua[0]) if pol]
     ctx.check("uncompute" in facts, "MP-flag", fi, "final uncompute under the `uncompute` flag", f"guards={facts}", f"uncompute_all is guarded by {facts}, not by the uncompute flag", ua[0])
+    others = [("" if pol else "not ") + norm(e) for e, pol in guard_facts(fi, ua[0]) if not (pol and norm(e) in ("uncompute", "returns is not None"))]
+    ctx.check(not others, "MP-flag", fi, "no other condition on the final uncompute", "", f"uncompute_all is additionally conditioned on {others}", ua[0])
 
 
 def q_enclosing_top(fi: FuncInfo, node):
